@@ -2,6 +2,7 @@ package main
 
 import (
 	"fmt"
+	"go/types"
 	"strings"
 
 	"golang.org/x/tools/go/ssa"
@@ -16,6 +17,8 @@ import (
 func (c *Ctx) evalIsValid(s string) (bool, string) {
 	fn := c.fn("names", "IsValid")
 	ev := &ssaEval{c: c, bind: map[ssa.Value]sv{}, mem: map[string]sv{}}
+	ev.call = func(call ssa.CallInstruction, args []sv) (sv, bool) { return stdCall(ev, call, args) }
+	ev.oracle = errOracle
 	ret := ev.runFunc(fn, []sv{{k: svString, s: s}})
 	if len(ret) != 1 || ret[0].k != svBool {
 		return false, "not evaluable: " + ev.why
@@ -71,6 +74,7 @@ func (c *Ctx) evalToUnicode(name string, dingbats bool) (res []int64, tables []s
 	ev.noInline = func(f *ssa.Function) bool {
 		return f.Signature.Recv() != nil && pointsTo(f.Signature.Recv().Type(), gm)
 	}
+	ev.oracle = errOracle
 	ev.call = func(call ssa.CallInstruction, args []sv) (sv, bool) {
 		if call == nil {
 			return sv{}, false
@@ -88,7 +92,7 @@ func (c *Ctx) evalToUnicode(name string, dingbats bool) (res []int64, tables []s
 			}
 			return sv{k: svNil}, true
 		}
-		return sv{}, false
+		return stdCall(ev, call, args)
 	}
 	ret := ev.runFunc(fn, []sv{{k: svString, s: name}, boolV(dingbats)})
 	if len(ret) != 1 {
@@ -203,4 +207,84 @@ func (c *Ctx) toUnicodeGrammarSSA() {
 	_, t2, w2 := c.evalToUnicode("xyzzy", false)
 	okD := w1 == "" && w2 == "" && strings.Join(t1, ",") == "zapfdingbats,glyphlist" && strings.Join(t2, ",") == "glyphlist"
 	c.check(okD, "NAMES-AGL", fname, "the Zapf Dingbats list is consulted only for dingbat fonts, before the glyph list", fn.Pos(), fmt.Sprintf("dingbats: %v; otherwise: %v", t1, t2), fmt.Sprintf("tables consulted for a dingbat font: %v, otherwise: %v %s%s", t1, t2, w1, w2))
+}
+
+// evalFromUnicode evaluates FromUnicode(r).  The functions that load a table (result type: a
+// map) are not entered; a look-up in what they return is answered from `listed`, a look-up in a
+// package-level table (the compatibility expansions) from `expansions`.
+func (c *Ctx) evalFromUnicode(r int64, listed map[int64]string, expansions map[int64][]int64) (string, string) {
+	fn := c.fn("names", "FromUnicode")
+	ev := &ssaEval{c: c, bind: map[ssa.Value]sv{}, mem: map[string]sv{}}
+	ev.oracle = errOracle
+	ev.noInline = func(f *ssa.Function) bool {
+		res := f.Signature.Results()
+		if res.Len() == 1 {
+			if _, isMap := res.At(0).Type().Underlying().(*types.Map); isMap {
+				return true
+			}
+		}
+		return false
+	}
+	ev.call = func(call ssa.CallInstruction, args []sv) (sv, bool) {
+		if call == nil {
+			if len(args) == 3 && args[0].s == "lookup" && args[2].k == svInt {
+				if strings.Contains(args[1].s, "global:") {
+					if x, ok := expansions[args[2].i]; ok {
+						var el []sv
+						for _, v := range x {
+							el = append(el, intV(v))
+						}
+						return sv{k: svTuple, tup: []sv{ev.newList(el), boolV(true)}}, true
+					}
+					return sv{k: svTuple, tup: []sv{{k: svNil}, boolV(false)}}, true
+				}
+				if n, ok := listed[args[2].i]; ok {
+					return sv{k: svTuple, tup: []sv{{k: svString, s: n}, boolV(true)}}, true
+				}
+				return sv{k: svTuple, tup: []sv{{k: svString}, boolV(false)}}, true
+			}
+			return sv{}, false
+		}
+		if sc := call.Common().StaticCallee(); sc != nil && c.inModule(sc) && ev.noInline(sc) {
+			return symV("table:" + sc.Name()), true
+		}
+		return stdCall(ev, call, args)
+	}
+	ret := ev.runFunc(fn, []sv{intV(r)})
+	if len(ret) != 1 || ret[0].k != svString {
+		return "", "not evaluable: " + ev.why + " " + fmt.Sprint(ret)
+	}
+	return ret[0].s, ""
+}
+
+// fromUnicodeRule: a character that is in no table gets the name u + at least four upper-case
+// hexadecimal digits (the form ToUnicode maps back); listed characters get their listed name;
+// a compatibility expansion gives the names of its parts joined by underscores.
+func (c *Ctx) fromUnicodeRule() {
+	fn := c.fn("names", "FromUnicode")
+	bad := ""
+	for _, r := range []int64{0x1, 0xFF, 0xABC, 0xD7FF, 0xE000, 0xFFFF, 0x10000, 0xABCDE, 0x10FFFF} {
+		got, why := c.evalFromUnicode(r, nil, nil)
+		want := fmt.Sprintf("u%04X", r)
+		if why != "" {
+			bad = fmt.Sprintf("U+%04X: %s", r, why)
+			break
+		}
+		if got != want {
+			bad = fmt.Sprintf("U+%04X gets the name %q, expected %q", r, got, want)
+			break
+		}
+	}
+	c.check(bad == "", "NAMES-TABLES", "names.FromUnicode", "fallback name = u + at least four upper-case hexadecimal digits", fn.Pos(), "9 code points outside all tables evaluated", "the fallback glyph name is not u + the upper-case, zero-padded hexadecimal code: ToUnicode would not map it back: "+bad)
+	bad = ""
+	if got, why := c.evalFromUnicode(0x41, map[int64]string{0x41: "A"}, nil); why != "" || got != "A" {
+		bad = fmt.Sprintf("a listed character gets the name %q %s", got, why)
+	}
+	if got, why := c.evalFromUnicode(0x132, map[int64]string{0x49: "I", 0x4A: "J"}, map[int64][]int64{0x132: {0x49, 0x4A}}); why != "" || got != "I_J" {
+		bad = fmt.Sprintf("a character with the compatibility expansion I J gets the name %q %s", got, why)
+	}
+	if got, why := c.evalFromUnicode(0x132, map[int64]string{0x49: "I"}, map[int64][]int64{0x132: {0x49, 0xE000}}); why != "" || got != "I_uE000" {
+		bad = fmt.Sprintf("an expansion with an unlisted part gets the name %q %s", got, why)
+	}
+	c.check(bad == "", "NAMES-TABLES", "names.FromUnicode", "listed characters get their listed name, expansions the names of their parts joined by underscores", fn.Pos(), "3 shapes evaluated", "FromUnicode: "+bad)
 }
